@@ -61,6 +61,15 @@ func contractServes(ct *Contract, prop string) bool {
 			}
 		}
 	}
+	for _, m := range []map[string][]*Clause{ct.CallSpecs} {
+		for _, cls := range m {
+			for _, cl := range cls {
+				if hasTag(cl.Tags, prop) {
+					return true
+				}
+			}
+		}
+	}
 	for _, l := range ct.Loops {
 		for _, cl := range l.Invariants {
 			if hasTag(cl.Tags, prop) {
